@@ -55,7 +55,12 @@ func newStressWorld(dir string) (*stressWorld, error) {
 		"big":   bigTemplate(),
 		// attribute access on Go values of one type from many goroutines: struct by value with pointer- and value-receiver
 		// methods, pointer to struct, typed map, embedded field
-		"meth": "m[{{ u.PLabel }}|{{ u.Name }}|{{ u.VLabel }}|{{ p.PLabel }}|{{ p.Inner.Tag }}|{{ tm.k }}|{{ u.Tag }}]",
+		// values shared by every call (one Go slice / map in all contexts, an engine global): nothing may write to them
+		"shared": "s[{% set m = sl|merge([x]) %}{% set r = sl|reverse %}{% set o = ss|sort %}{{ m|join(',') }}|{{ r|join(',') }}|{{ o|join(',') }}|" +
+			"{{ sl|slice(1, 2)|merge([x, x])|join(',') }}|{{ sm|merge({'k': x})|keys|join(',') }}|{{ gl|merge([x])|join(',') }}|{{ ss|merge([x])|join(',') }}|{{ sl|join(',') }}]",
+		// an include that fails while its with-values are evaluated (error path), next to ones that work
+		"failinc": "f<{% include 'plain' with {'x': x} %}{% include 'incl' with {'x': x, 'y': x|nosuchfilter} %}>",
+		"meth":    "m[{{ u.PLabel }}|{{ u.Name }}|{{ u.VLabel }}|{{ p.PLabel }}|{{ p.Inner.Tag }}|{{ tm.k }}|{{ u.Tag }}]",
 	}}
 	files := map[string]string{
 		"dirA/main.twig":     "A:{% include './part.twig' %}:{{ x }}",
@@ -84,7 +89,11 @@ func (w *stressWorld) engine(mode string) *twig.Engine {
 	fs := twig.NewFileSystemLoader([]string{w.dir})
 	fs.SetSuffix("")
 	e.RegisterLoader(fs)
+	e.AddGlobal("gl", sharedGlobal)
 	switch mode {
+	case "smallattr":
+		// the attribute cache holds three (type, name) pairs: the renders of "meth" evict each other's entries all the time
+		twig.VerifSetAttrCacheMax(3)
 	case "cacheoff":
 		e.SetCache(false)
 	case "autoreload":
@@ -108,7 +117,7 @@ type sCall struct {
 	GotVer int    `json:"gotver"` // for renders of versioned names: the version printed
 }
 
-var renderNames = []string{"plain", "incl", "child", "imp", "loop", "big", "meth", "meth", "dirA/main.twig", "dirB/main.twig", "dirB/sub/kid.twig"}
+var renderNames = []string{"shared", "shared", "failinc", "meth", "meth", "plain", "incl", "child", "imp", "loop", "big", "meth", "meth", "dirA/main.twig", "dirB/main.twig", "dirB/sub/kid.twig"}
 
 type stressInner struct{ Tag string }
 type stressUser struct {
@@ -120,8 +129,16 @@ type stressUser struct {
 func (u *stressUser) PLabel() string { return "<" + u.Name + ">" }
 func (u stressUser) VLabel() string  { return "(" + u.Name + ")" }
 
+// shared by all calls of the process, with spare capacity behind the visible elements
+var (
+	sharedList    = append(make([]interface{}, 0, 16), "c", "a", "b")
+	sharedStrings = append(make([]string, 0, 16), "z", "y", "x")
+	sharedMap     = map[string]interface{}{"a": 1, "b": 2}
+	sharedGlobal  = append(make([]interface{}, 0, 16), 1, 2, 3)
+)
+
 func doCall(e *twig.Engine, c *sCall) {
-	ctx := map[string]interface{}{"x": c.X,
+	ctx := map[string]interface{}{"x": c.X, "sl": sharedList, "ss": sharedStrings, "sm": sharedMap,
 		"u":  stressUser{stressInner: stressInner{Tag: "t" + c.X}, Name: c.X, Inner: stressInner{Tag: "i" + c.X}},
 		"p":  &stressUser{Name: "p" + c.X, Inner: stressInner{Tag: "j" + c.X}},
 		"tm": map[string]string{"k": "k" + c.X}}
